@@ -237,25 +237,42 @@ theorem cpl_directiveLocations (n : Nat) (ts o : List Tok) (hok : TsOK ts) (hd :
 
 /-! ### optional bracketed blocks -/
 
-/-- `( item+ )?` / `{ item+ }?` through `pSome` -/
-theorem cpl_optBlock {α : Type} (item : Sym NT) (pr : α → List Tok) (Fol : Stream → Prop) (FolTok : Tok → Prop)
+theorem All₂.imp {α ι : Type} {R S : α → ι → Prop} {ys : List α} {xs : List ι} (h : All₂ R ys xs)
+    (hi : ∀ y x, R y x → S y x) : All₂ S ys xs := by
+  induction h with
+  | nil => exact .nil
+  | cons h1 _ ih => exact .cons (hi _ _ h1) ih
+
+theorem All₂.forall_left {α ι : Type} {R : α → ι → Prop} {Q : α → Prop} {ys : List α} {xs : List ι} (h : All₂ R ys xs)
+    (hi : ∀ y x, R y x → Q y) : ∀ y ∈ ys, Q y := by
+  induction h with
+  | nil => intro y hy; cases hy
+  | cons h1 _ ih =>
+    intro y hy
+    rcases List.mem_cons.1 hy with rfl | hy
+    · exact hi _ _ h1
+    · exact ih y hy
+
+/-- `( item+ )?` / `{ item+ }?` through `pSome`; `Q` is a property of the parsed items -/
+theorem cpl_optBlockQ {α : Type} (item : Sym NT) (pr : α → List Tok) (Q : α → Prop) (Fol : Stream → Prop) (FolTok : Tok → Prop)
     (start stop : Kind) (h1 : start.valued = false) (h2 : stop.valued = false) {cb : Prog α}
-    (hcb : ∀ ts o, TsOK ts → D item ts o → ∀ a σ1, Starts a.σ ts σ1 → Fol σ1 → Fwd cb a (fun y a' => pr y = o ∧ a'.σ = σ1))
+    (hcb : ∀ ts o, TsOK ts → D item ts o → ∀ a σ1, Starts a.σ ts σ1 → Fol σ1 →
+      Fwd cb a (fun y a' => (pr y = o ∧ Q y) ∧ a'.σ = σ1))
     (hstart : ∀ ts o, TsOK ts → D item ts o → ∃ t rest, ts = t :: rest ∧ t.kind ≠ stop ∧ FolTok t)
     (hfol : ∀ σ1, (σ1.head.kind = stop ∨ FolTok (Tok.ofToken σ1.head)) → Fol σ1)
     (n : Nat) (ts o : List Tok) (hok : TsOK ts)
     (hd : (ts = [] ∧ o = []) ∨ D (.seq (Grammar.kind start) (.seq (.plus item) (Grammar.kind stop))) ts o)
     (a : AS) (σ' : Stream) (hs : Starts a.σ ts σ') (habs : ts = [] → σ'.head.kind ≠ start) :
     Fwd (pSome start stop n cb) a
-      (fun ys a' => (if ys.isEmpty then [] else tP start :: ys.flatMap pr ++ [tP stop]) = o ∧ a'.σ = σ') := by
+      (fun ys a' => (if ys.isEmpty then [] else tP start :: ys.flatMap pr ++ [tP stop]) = o ∧ (∀ y ∈ ys, Q y) ∧ a'.σ = σ') := by
   rcases hd with ⟨rfl, rfl⟩ | hd
   · rw [Starts.nil_iff] at hs
     refine (fwd_bracket_absent start stop n a (by rw [hs]; exact habs rfl)).2.mono ?_
     rintro ys a' ⟨rfl, hσ⟩
-    exact ⟨rfl, by rw [hσ, hs]⟩
+    exact ⟨rfl, (fun _ h => by cases h), by rw [hσ, hs]⟩
   · obtain ⟨parts, hne, rfl, rfl, hp⟩ := inv_block hd hok h1 h2
     have hokp : ∀ p ∈ parts, TsOK p.1 := (hok.tail.left).of_flatMap
-    refine ((fwd_bracketG (·.1) (fun (y : α) (p : List Tok × List Tok) => pr y = p.2) Fol start stop parts
+    refine ((fwd_bracketG (·.1) (fun (y : α) (p : List Tok × List Tok) => pr y = p.2 ∧ Q y) Fol start stop parts
       (fun p hpm a0 σ1 hst hf => hcb p.1 p.2 (hokp p hpm) (hp p hpm) a0 σ1 hst hf)
       (fun p hpm => by
         obtain ⟨t, rest, e, hk, _⟩ := hstart p.1 p.2 (hokp p hpm) (hp p hpm)
@@ -269,11 +286,25 @@ theorem cpl_optBlock {α : Type} (item : Sym NT) (pr : α → List Tok) (Fol : S
           exact .inr hf))
       n a σ' (tP start) (tP stop) rfl rfl (by simpa using hs)).2 hne).mono ?_
     rintro ys a' ⟨hy, hσ⟩
-    refine ⟨?_, hσ⟩
+    refine ⟨?_, hy.forall_left fun _ _ h => h.2, hσ⟩
     have hyne := all₂_ne hy hne
     have : ys.isEmpty = false := by cases ys <;> simp_all
-    rw [this, flatMap_forall₂ (P := pr) (g := fun (p : List Tok × List Tok) => p.2) hy]
+    rw [this, flatMap_forall₂ (P := pr) (g := fun (p : List Tok × List Tok) => p.2) (hy.imp fun _ _ h => h.1)]
     simp
+
+theorem cpl_optBlock {α : Type} (item : Sym NT) (pr : α → List Tok) (Fol : Stream → Prop) (FolTok : Tok → Prop)
+    (start stop : Kind) (h1 : start.valued = false) (h2 : stop.valued = false) {cb : Prog α}
+    (hcb : ∀ ts o, TsOK ts → D item ts o → ∀ a σ1, Starts a.σ ts σ1 → Fol σ1 → Fwd cb a (fun y a' => pr y = o ∧ a'.σ = σ1))
+    (hstart : ∀ ts o, TsOK ts → D item ts o → ∃ t rest, ts = t :: rest ∧ t.kind ≠ stop ∧ FolTok t)
+    (hfol : ∀ σ1, (σ1.head.kind = stop ∨ FolTok (Tok.ofToken σ1.head)) → Fol σ1)
+    (n : Nat) (ts o : List Tok) (hok : TsOK ts)
+    (hd : (ts = [] ∧ o = []) ∨ D (.seq (Grammar.kind start) (.seq (.plus item) (Grammar.kind stop))) ts o)
+    (a : AS) (σ' : Stream) (hs : Starts a.σ ts σ') (habs : ts = [] → σ'.head.kind ≠ start) :
+    Fwd (pSome start stop n cb) a
+      (fun ys a' => (if ys.isEmpty then [] else tP start :: ys.flatMap pr ++ [tP stop]) = o ∧ a'.σ = σ') :=
+  (cpl_optBlockQ item pr (fun _ => True) Fol FolTok start stop h1 h2
+    (fun ts o hok hd a σ1 hs hf => (hcb ts o hok hd a σ1 hs hf).mono fun _ _ h => ⟨⟨h.1, trivial⟩, h.2⟩)
+    hstart hfol n ts o hok hd a σ' hs habs).mono fun _ _ h => ⟨h.1, h.2.2⟩
 
 /-- the first token of a described item `Description? Name …` -/
 def DescOrName (t : Tok) : Prop := t.kind = .string ∨ t.kind = .blockString ∨ t.kind = .name
@@ -523,20 +554,24 @@ theorem cpl_fieldDefs (n : Nat) (ts o : List Tok) (hok : TsOK ts) (hd : D (.opt 
 
 theorem inv_enumVal {ts o : List Tok} (h : D (.nt .enumValueDefinition) ts o) :
     ∃ tD oD nm tds ods, ts = tD ++ tName nm :: tds ∧ o = oD ++ tName nm :: ods ∧ D (.opt (.nt .description)) tD oD ∧
-      D (.opt (.nt (.directives true))) tds ods := by
+      D (.opt (.nt (.directives true))) tds ods ∧ notLiteralName nm := by
   obtain ⟨t1, t2, o1, o2, rfl, rfl, d1, d2⟩ := h.nt_inv.seq_inv'
   obtain ⟨t3, t4, o3, o4, rfl, rfl, d3, d4⟩ := d2.seq_inv'
   obtain ⟨t, rfl, rfl, hp⟩ := d3.nt_inv.tok_inv
   simp only [Bool.and_eq_true, beq_iff_eq] at hp
   have : t = tName t.value := by cases t; simp_all [tName]
   rw [this]
-  exact ⟨t1, o1, t.value, t4, o4, by simp, by simp, d1, d4⟩
+  refine ⟨t1, o1, t.value, t4, o4, by simp, by simp, d1, d4, ?_⟩
+  have h2 := hp.2
+  simp only [Bool.not_eq_true', List.contains_eq_mem, List.mem_cons, List.not_mem_nil, or_false, decide_eq_false_iff_not,
+    not_or] at h2
+  exact h2
 
 theorem cpl_enumVal (n : Nat) (ts o : List Tok) (hok : TsOK ts) (hd : D (.nt .enumValueDefinition) ts o) (a : AS) (σ' : Stream)
     (hs : Starts a.σ ts σ') (hfol : FolArg σ') :
-    Fwd (parseEnumValueDefinition n) a (fun y a' => printEnumVal y = o ∧ a'.σ = σ') := by
+    Fwd (parseEnumValueDefinition n) a (fun y a' => (printEnumVal y = o ∧ notLiteralName y.name) ∧ a'.σ = σ') := by
   obtain ⟨f1, f2, f3, f4⟩ := hfol
-  obtain ⟨tD, oD, nm, tds, ods, rfl, rfl, dD, dds⟩ := inv_enumVal hd
+  obtain ⟨tD, oD, nm, tds, ods, rfl, rfl, dD, dds, hlit⟩ := inv_enumVal hd
   rw [Starts.append_iff] at hs
   obtain ⟨σ1, h1, hs⟩ := hs
   obtain ⟨σ2, h2, h3⟩ := hs.cons_single
@@ -553,17 +588,18 @@ theorem cpl_enumVal (n : Nat) (ts o : List Tok) (hok : TsOK ts) (hd : D (.nt .en
   rintro ds' b5 ⟨hds, hσ⟩
   refine (Fwd.pure _ _).mono ?_
   rintro y b6 ⟨rfl, rfl⟩
-  exact ⟨by simp [printEnumVal, hdesc, hds], hσ⟩
+  exact ⟨⟨by simp [printEnumVal, hdesc, hds], hlit⟩, hσ⟩
 
 /-- `EnumValuesDefinition?` -/
 theorem cpl_enumVals (n : Nat) (ts o : List Tok) (hok : TsOK ts) (hd : D (.opt (.nt .enumValuesDefinition)) ts o) (a : AS)
     (σ' : Stream) (hs : Starts a.σ ts σ') (habs : ts = [] → σ'.head.kind ≠ .braceL) :
-    Fwd (parseEnumValuesDefinition n) a (fun ys a' => printBlock printEnumVal ys = o ∧ a'.σ = σ') := by
+    Fwd (parseEnumValuesDefinition n) a (fun ys a' => printBlock printEnumVal ys = o ∧
+      (∀ e ∈ ys, notLiteralName e.name) ∧ a'.σ = σ') := by
   unfold parseEnumValuesDefinition
-  exact cpl_optBlock (.nt .enumValueDefinition) printEnumVal FolArg DescOrName .braceL .braceR rfl rfl
+  exact cpl_optBlockQ (.nt .enumValueDefinition) printEnumVal (fun e => notLiteralName e.name) FolArg DescOrName .braceL .braceR rfl rfl
     (fun ts o hok hd a σ1 hs hf => cpl_enumVal n ts o hok hd a σ1 hs hf)
     (fun ts o hok hd => by
-      obtain ⟨tD, oD, nm, tds, ods, rfl, _, dD, _⟩ := inv_enumVal hd
+      obtain ⟨tD, oD, nm, tds, ods, rfl, _, dD, _, _⟩ := inv_enumVal hd
       obtain ⟨t, rest, e, hk⟩ := first_described dD nm tds
       exact ⟨t, rest, e, by rcases hk with h | h | h <;> simp [h], hk⟩)
     (fun σ1 h => folArg_of_descOrName (by rcases h with h | h; exact .inr (.inl h); exact .inr (.inr h)))
@@ -960,13 +996,15 @@ theorem cpl_objBody (n : Nat) (w : String) (tb ob : List Tok) (hok : TsOK tb) (h
   exact hk pos nm' ifs ds' fs' b6 hkey hσ (by rw [hifs, hds, hfs])
 
 theorem cpl_dirsBlockBody {γ : Type} (B : NT) (kB : Kind) (hkB : kB ≠ .at ∧ kB ≠ .parenL) (P : Prog (List γ)) (prB : List γ → List Tok)
+    (QB : List γ → Prop)
     (swB : ∀ ts o, TsOK ts → D (.opt (.nt B)) ts o → StartsWith [kB] ts)
     (hP : ∀ ts o, TsOK ts → D (.opt (.nt B)) ts o → ∀ a σ', Starts a.σ ts σ' → FolItem σ' →
-      Fwd P a (fun xs a' => prB xs = o ∧ a'.σ = σ'))
+      Fwd P a (fun xs a' => prB xs = o ∧ QB xs ∧ a'.σ = σ'))
     (n : Nat) (w : String) (tb ob : List Tok) (hok : TsOK tb) (hb : DirsBlockBody B tb ob) (a : AS) (σ' : Stream)
     (hs : Starts a.σ (tKw w :: tb) σ') (hfol : FolItem σ') {β : Type}
     (k : Pos → Name → List Directive → List γ → Prog β) (R : β → AS → Prop)
-    (hk : ∀ pos nm dirs xs (b : AS), KeyIn a.σ σ' pos.start → b.σ = σ' → tName nm :: (printDirectives dirs ++ prB xs) = ob → Fwd (k pos nm dirs xs) b R) :
+    (hk : ∀ pos nm dirs xs (b : AS), KeyIn a.σ σ' pos.start → b.σ = σ' → QB xs → tName nm :: (printDirectives dirs ++ prB xs) = ob →
+      Fwd (k pos nm dirs xs) b R) :
     Fwd (do
       let _ ← expectKeyword (str w)
       let pos ← peekPos
@@ -996,14 +1034,15 @@ theorem cpl_dirsBlockBody {γ : Type} (B : NT) (kB : Kind) (hkB : kB ≠ .at ∧
   refine Fwd.bind (cpl_directives true n tds ods hokd dds b3 σ4 (by rw [hσb3]; exact h4) q4.1 q4.2) ?_
   rintro ds' b5 ⟨hds, hσb5⟩
   refine Fwd.bind (hP tf of hokf df b5 σ' (by rw [hσb5]; exact h5) ⟨g1, g2, g3, g4, g5, g6, g7, g8⟩) ?_
-  rintro xs b6 ⟨hxs, hσ⟩
-  exact hk pos nm' ds' xs b6 hkey hσ (by rw [hds, hxs])
+  rintro xs b6 ⟨hxs, hq, hσ⟩
+  exact hk pos nm' ds' xs b6 hkey hσ hq (by rw [hds, hxs])
 
 theorem cpl_unionBody (n : Nat)
     (w : String) (tb ob : List Tok) (hok : TsOK tb) (hb : DirsBlockBody .unionMemberTypes tb ob) (a : AS) (σ' : Stream)
     (hs : Starts a.σ (tKw w :: tb) σ') (hfol : FolItem σ') {β : Type}
     (k : Pos → Name → List Directive → List Name → Prog β) (R : β → AS → Prop)
-    (hk : ∀ pos nm dirs xs (b : AS), KeyIn a.σ σ' pos.start → b.σ = σ' → tName nm :: (printDirectives dirs ++ printMembers xs) = ob → Fwd (k pos nm dirs xs) b R) :
+    (hk : ∀ pos nm dirs xs (b : AS), KeyIn a.σ σ' pos.start → b.σ = σ' → True → tName nm :: (printDirectives dirs ++ printMembers xs) = ob →
+      Fwd (k pos nm dirs xs) b R) :
     Fwd (do
       let _ ← expectKeyword (str w)
       let pos ← peekPos
@@ -1011,16 +1050,18 @@ theorem cpl_unionBody (n : Nat)
       let dirs ← parseDirectives n true
       let xs ← parseUnionMemberTypes n
       k pos name dirs xs) a R :=
-  cpl_dirsBlockBody .unionMemberTypes .equals (by decide) (parseUnionMemberTypes n) printMembers
+  cpl_dirsBlockBody .unionMemberTypes .equals (by decide) (parseUnionMemberTypes n) printMembers (fun _ => True)
     (fun ts o hok h => sw_optMembers h hok)
-    (fun ts o hok h a σ' hs hf => cpl_unionMembers n ts o hok h a σ' hs hf.2.2.2.2.2.1 (fun _ => hf.2.2.2.2.1))
+    (fun ts o hok h a σ' hs hf => (cpl_unionMembers n ts o hok h a σ' hs hf.2.2.2.2.2.1 (fun _ => hf.2.2.2.2.1)).mono
+      fun _ _ h => ⟨h.1, trivial, h.2⟩)
     n w tb ob hok hb a σ' hs hfol k R hk
 
 theorem cpl_enumBody (n : Nat)
     (w : String) (tb ob : List Tok) (hok : TsOK tb) (hb : DirsBlockBody .enumValuesDefinition tb ob) (a : AS) (σ' : Stream)
     (hs : Starts a.σ (tKw w :: tb) σ') (hfol : FolItem σ') {β : Type}
     (k : Pos → Name → List Directive → List EnumValDef → Prog β) (R : β → AS → Prop)
-    (hk : ∀ pos nm dirs xs (b : AS), KeyIn a.σ σ' pos.start → b.σ = σ' → tName nm :: (printDirectives dirs ++ printBlock printEnumVal xs) = ob → Fwd (k pos nm dirs xs) b R) :
+    (hk : ∀ pos nm dirs xs (b : AS), KeyIn a.σ σ' pos.start → b.σ = σ' → (∀ e ∈ xs, notLiteralName e.name) →
+      tName nm :: (printDirectives dirs ++ printBlock printEnumVal xs) = ob → Fwd (k pos nm dirs xs) b R) :
     Fwd (do
       let _ ← expectKeyword (str w)
       let pos ← peekPos
@@ -1029,6 +1070,7 @@ theorem cpl_enumBody (n : Nat)
       let xs ← parseEnumValuesDefinition n
       k pos name dirs xs) a R :=
   cpl_dirsBlockBody .enumValuesDefinition .braceL (by decide) (parseEnumValuesDefinition n) (printBlock printEnumVal)
+    (fun xs => ∀ e ∈ xs, notLiteralName e.name)
     (fun ts o hok h => sw_optBlock (h.opt_inv.imp id fun h => h.nt_inv) hok rfl rfl)
     (fun ts o hok h a σ' hs hf => cpl_enumVals n ts o hok h a σ' hs (fun _ => hf.2.2.1))
     n w tb ob hok hb a σ' hs hfol k R hk
@@ -1037,7 +1079,8 @@ theorem cpl_inputBody (n : Nat)
     (w : String) (tb ob : List Tok) (hok : TsOK tb) (hb : DirsBlockBody .inputFieldsDefinition tb ob) (a : AS) (σ' : Stream)
     (hs : Starts a.σ (tKw w :: tb) σ') (hfol : FolItem σ') {β : Type}
     (k : Pos → Name → List Directive → List FieldDef → Prog β) (R : β → AS → Prop)
-    (hk : ∀ pos nm dirs xs (b : AS), KeyIn a.σ σ' pos.start → b.σ = σ' → tName nm :: (printDirectives dirs ++ printBlock printInputField xs) = ob → Fwd (k pos nm dirs xs) b R) :
+    (hk : ∀ pos nm dirs xs (b : AS), KeyIn a.σ σ' pos.start → b.σ = σ' → True →
+      tName nm :: (printDirectives dirs ++ printBlock printInputField xs) = ob → Fwd (k pos nm dirs xs) b R) :
     Fwd (do
       let _ ← expectKeyword (str w)
       let pos ← peekPos
@@ -1046,13 +1089,15 @@ theorem cpl_inputBody (n : Nat)
       let xs ← parseInputFieldsDefinition n
       k pos name dirs xs) a R :=
   cpl_dirsBlockBody .inputFieldsDefinition .braceL (by decide) (parseInputFieldsDefinition n) (printBlock printInputField)
+    (fun _ => True)
     (fun ts o hok h => sw_optBlock (h.opt_inv.imp id fun h => h.nt_inv) hok rfl rfl)
-    (fun ts o hok h a σ' hs hf => cpl_inputFields n ts o hok h a σ' hs (fun _ => hf.2.2.1))
+    (fun ts o hok h a σ' hs hf => (cpl_inputFields n ts o hok h a σ' hs (fun _ => hf.2.2.1)).mono
+      fun _ _ h => ⟨h.1, trivial, h.2⟩)
     n w tb ob hok hb a σ' hs hfol k R hk
 
 /-- the result of a type-definition parser: description, kind and unparse of the body -/
 def DefRes (desc : Bytes) (k : DefKind) (ob : List Tok) (σ σ' : Stream) (y : Definition) (a' : AS) : Prop :=
-  y.desc = desc ∧ y.kind = k ∧ printDefBody y = ob ∧ KeyIn σ σ' y.pos.start ∧ a'.σ = σ'
+  y.desc = desc ∧ y.kind = k ∧ printDefBody y = ob ∧ EnumOK y ∧ KeyIn σ σ' y.pos.start ∧ a'.σ = σ'
 
 theorem printImplements_nil_of_length {ifs : List Name} (h : ifs.length = 0) : printImplements ifs = [] := by
   cases ifs with
@@ -1067,7 +1112,7 @@ theorem cpl_scalarDef (n : Nat) (desc : Bytes) (tb ob : List Tok) (hok : TsOK tb
   intro pos nm dirs b hkey hσ hob
   refine (Fwd.pure _ _).mono ?_
   rintro y b' ⟨rfl, rfl⟩
-  exact ⟨rfl, rfl, by simpa [printDefBody] using hob, hkey, hσ⟩
+  exact ⟨rfl, rfl, by simpa [printDefBody] using hob, (by first | exact fun _ => hq | exact fun h => (by cases h)), hkey, hσ⟩
 
 theorem cpl_scalarExt (n : Nat) (tb ob : List Tok) (hok : TsOK tb) (hb : BodyD .scalar tb ob) (hne : ob.tail ≠ []) (a : AS)
     (σ' : Stream) (hs : Starts a.σ (tKw "scalar" :: tb) σ') (hfol : FolItem σ') :
@@ -1080,7 +1125,7 @@ theorem cpl_scalarExt (n : Nat) (tb ob : List Tok) (hok : TsOK tb) (hb : BodyD .
     apply hne
     rw [← hob, List.eq_nil_of_length_eq_zero hc]; rfl) ((Fwd.pure _ _).mono ?_)
   rintro y b' ⟨rfl, rfl⟩
-  exact ⟨rfl, rfl, by simpa [printDefBody] using hob, hkey, hσ⟩
+  exact ⟨rfl, rfl, by simpa [printDefBody] using hob, (by first | exact fun _ => hq | exact fun h => (by cases h)), hkey, hσ⟩
 
 theorem cpl_objectDef (n : Nat) (desc : Bytes) (tb ob : List Tok) (hok : TsOK tb) (hb : BodyD .object tb ob) (a : AS) (σ' : Stream)
     (hs : Starts a.σ (tKw "type" :: tb) σ') (hfol : FolItem σ') :
@@ -1090,7 +1135,7 @@ theorem cpl_objectDef (n : Nat) (desc : Bytes) (tb ob : List Tok) (hok : TsOK tb
   intro pos nm ifs dirs fields b hkey hσ hob
   refine (Fwd.pure _ _).mono ?_
   rintro y b' ⟨rfl, rfl⟩
-  exact ⟨rfl, rfl, by simpa [printDefBody] using hob, hkey, hσ⟩
+  exact ⟨rfl, rfl, by simpa [printDefBody] using hob, (by first | exact fun _ => hq | exact fun h => (by cases h)), hkey, hσ⟩
 
 theorem cpl_interfaceDef (n : Nat) (desc : Bytes) (tb ob : List Tok) (hok : TsOK tb) (hb : BodyD .interface tb ob) (a : AS)
     (σ' : Stream) (hs : Starts a.σ (tKw "interface" :: tb) σ') (hfol : FolItem σ') :
@@ -1100,7 +1145,7 @@ theorem cpl_interfaceDef (n : Nat) (desc : Bytes) (tb ob : List Tok) (hok : TsOK
   intro pos nm ifs dirs fields b hkey hσ hob
   refine (Fwd.pure _ _).mono ?_
   rintro y b' ⟨rfl, rfl⟩
-  exact ⟨rfl, rfl, by simpa [printDefBody] using hob, hkey, hσ⟩
+  exact ⟨rfl, rfl, by simpa [printDefBody] using hob, (by first | exact fun _ => hq | exact fun h => (by cases h)), hkey, hσ⟩
 
 theorem obj_extends {nm : Name} {ifs : List Name} {dirs : List Directive} {fields : List FieldDef} {ob : List Tok}
     (hob : tName nm :: (printImplements ifs ++ (printDirectives dirs ++ printBlock printFieldDef fields)) = ob)
@@ -1118,7 +1163,7 @@ theorem cpl_objectExt (n : Nat) (tb ob : List Tok) (hok : TsOK tb) (hb : BodyD .
   intro pos nm ifs dirs fields b hkey hσ hob
   refine Fwd.ite_neg (obj_extends hob hne) ((Fwd.pure _ _).mono ?_)
   rintro y b' ⟨rfl, rfl⟩
-  exact ⟨rfl, rfl, by simpa [printDefBody] using hob, hkey, hσ⟩
+  exact ⟨rfl, rfl, by simpa [printDefBody] using hob, (by first | exact fun _ => hq | exact fun h => (by cases h)), hkey, hσ⟩
 
 theorem cpl_interfaceExt (n : Nat) (tb ob : List Tok) (hok : TsOK tb) (hb : BodyD .interface tb ob) (hne : ob.tail ≠ []) (a : AS)
     (σ' : Stream) (hs : Starts a.σ (tKw "interface" :: tb) σ') (hfol : FolItem σ') :
@@ -1128,7 +1173,7 @@ theorem cpl_interfaceExt (n : Nat) (tb ob : List Tok) (hok : TsOK tb) (hb : Body
   intro pos nm ifs dirs fields b hkey hσ hob
   refine Fwd.ite_neg (obj_extends hob hne) ((Fwd.pure _ _).mono ?_)
   rintro y b' ⟨rfl, rfl⟩
-  exact ⟨rfl, rfl, by simpa [printDefBody] using hob, hkey, hσ⟩
+  exact ⟨rfl, rfl, by simpa [printDefBody] using hob, (by first | exact fun _ => hq | exact fun h => (by cases h)), hkey, hσ⟩
 
 theorem block_extends {γ : Type} {nm : Name} {dirs : List Directive} {xs : List γ} {prB : List γ → List Tok} {ob : List Tok}
     (hnil : prB [] = []) (hob : tName nm :: (printDirectives dirs ++ prB xs) = ob) (hne : ob.tail ≠ []) :
@@ -1143,60 +1188,60 @@ theorem cpl_unionDef (n : Nat) (desc : Bytes) (tb ob : List Tok) (hok : TsOK tb)
     Fwd (parseUnionTypeDefinition n desc) a (DefRes desc .union ob a.σ σ') := by
   unfold parseUnionTypeDefinition
   refine cpl_unionBody n "union" tb ob hok hb a σ' hs hfol _ _ ?_
-  intro pos nm dirs xs b hkey hσ hob
+  intro pos nm dirs xs b hkey hσ hq hob
   refine (Fwd.pure _ _).mono ?_
   rintro y b' ⟨rfl, rfl⟩
-  exact ⟨rfl, rfl, by simpa [printDefBody] using hob, hkey, hσ⟩
+  exact ⟨rfl, rfl, by simpa [printDefBody] using hob, (by first | exact fun _ => hq | exact fun h => (by cases h)), hkey, hσ⟩
 
 theorem cpl_unionExt (n : Nat) (tb ob : List Tok) (hok : TsOK tb) (hb : BodyD .union tb ob) (hne : ob.tail ≠ []) (a : AS)
     (σ' : Stream) (hs : Starts a.σ (tKw "union" :: tb) σ') (hfol : FolItem σ') :
     Fwd (parseUnionTypeExtension n) a (DefRes [] .union ob a.σ σ') := by
   unfold parseUnionTypeExtension
   refine cpl_unionBody n "union" tb ob hok hb a σ' hs hfol _ _ ?_
-  intro pos nm dirs xs b hkey hσ hob
+  intro pos nm dirs xs b hkey hσ hq hob
   refine Fwd.ite_neg (block_extends rfl hob hne) ((Fwd.pure _ _).mono ?_)
   rintro y b' ⟨rfl, rfl⟩
-  exact ⟨rfl, rfl, by simpa [printDefBody] using hob, hkey, hσ⟩
+  exact ⟨rfl, rfl, by simpa [printDefBody] using hob, (by first | exact fun _ => hq | exact fun h => (by cases h)), hkey, hσ⟩
 
 theorem cpl_enumDef (n : Nat) (desc : Bytes) (tb ob : List Tok) (hok : TsOK tb) (hb : BodyD .enum tb ob) (a : AS) (σ' : Stream)
     (hs : Starts a.σ (tKw "enum" :: tb) σ') (hfol : FolItem σ') :
     Fwd (parseEnumTypeDefinition n desc) a (DefRes desc .enum ob a.σ σ') := by
   unfold parseEnumTypeDefinition
   refine cpl_enumBody n "enum" tb ob hok hb a σ' hs hfol _ _ ?_
-  intro pos nm dirs xs b hkey hσ hob
+  intro pos nm dirs xs b hkey hσ hq hob
   refine (Fwd.pure _ _).mono ?_
   rintro y b' ⟨rfl, rfl⟩
-  exact ⟨rfl, rfl, by simpa [printDefBody] using hob, hkey, hσ⟩
+  exact ⟨rfl, rfl, by simpa [printDefBody] using hob, (by first | exact fun _ => hq | exact fun h => (by cases h)), hkey, hσ⟩
 
 theorem cpl_enumExt (n : Nat) (tb ob : List Tok) (hok : TsOK tb) (hb : BodyD .enum tb ob) (hne : ob.tail ≠ []) (a : AS)
     (σ' : Stream) (hs : Starts a.σ (tKw "enum" :: tb) σ') (hfol : FolItem σ') :
     Fwd (parseEnumTypeExtension n) a (DefRes [] .enum ob a.σ σ') := by
   unfold parseEnumTypeExtension
   refine cpl_enumBody n "enum" tb ob hok hb a σ' hs hfol _ _ ?_
-  intro pos nm dirs xs b hkey hσ hob
+  intro pos nm dirs xs b hkey hσ hq hob
   refine Fwd.ite_neg (block_extends rfl hob hne) ((Fwd.pure _ _).mono ?_)
   rintro y b' ⟨rfl, rfl⟩
-  exact ⟨rfl, rfl, by simpa [printDefBody] using hob, hkey, hσ⟩
+  exact ⟨rfl, rfl, by simpa [printDefBody] using hob, (by first | exact fun _ => hq | exact fun h => (by cases h)), hkey, hσ⟩
 
 theorem cpl_inputDef (n : Nat) (desc : Bytes) (tb ob : List Tok) (hok : TsOK tb) (hb : BodyD .inputObject tb ob) (a : AS)
     (σ' : Stream) (hs : Starts a.σ (tKw "input" :: tb) σ') (hfol : FolItem σ') :
     Fwd (parseInputObjectTypeDefinition n desc) a (DefRes desc .inputObject ob a.σ σ') := by
   unfold parseInputObjectTypeDefinition
   refine cpl_inputBody n "input" tb ob hok hb a σ' hs hfol _ _ ?_
-  intro pos nm dirs xs b hkey hσ hob
+  intro pos nm dirs xs b hkey hσ hq hob
   refine (Fwd.pure _ _).mono ?_
   rintro y b' ⟨rfl, rfl⟩
-  exact ⟨rfl, rfl, by simpa [printDefBody] using hob, hkey, hσ⟩
+  exact ⟨rfl, rfl, by simpa [printDefBody] using hob, (by first | exact fun _ => hq | exact fun h => (by cases h)), hkey, hσ⟩
 
 theorem cpl_inputExt (n : Nat) (tb ob : List Tok) (hok : TsOK tb) (hb : BodyD .inputObject tb ob) (hne : ob.tail ≠ []) (a : AS)
     (σ' : Stream) (hs : Starts a.σ (tKw "input" :: tb) σ') (hfol : FolItem σ') :
     Fwd (parseInputObjectTypeExtension n) a (DefRes [] .inputObject ob a.σ σ') := by
   unfold parseInputObjectTypeExtension
   refine cpl_inputBody n "input" tb ob hok hb a σ' hs hfol _ _ ?_
-  intro pos nm dirs xs b hkey hσ hob
+  intro pos nm dirs xs b hkey hσ hq hob
   refine Fwd.ite_neg (block_extends rfl hob hne) ((Fwd.pure _ _).mono ?_)
   rintro y b' ⟨rfl, rfl⟩
-  exact ⟨rfl, rfl, by simpa [printDefBody] using hob, hkey, hσ⟩
+  exact ⟨rfl, rfl, by simpa [printDefBody] using hob, (by first | exact fun _ => hq | exact fun h => (by cases h)), hkey, hσ⟩
 
 /-! ### dispatch on the keyword: type definitions -/
 
@@ -1448,7 +1493,7 @@ theorem cpl_directiveDefinition (n : Nat) (desc : Bytes) (nm : Name) (ta oa trep
 
 /-- what one top-level item contributes: an item whose unparse is `o`, recorded at one of its tokens -/
 def ItemRes (doc : SchemaDoc) (o : List Tok) (σ σ' : Stream) (y : SchemaDoc) (a' : AS) : Prop :=
-  ∃ it, y = doc.add it ∧ (sItem it).2 = o ∧ KeyIn σ σ' (sItem it).1 ∧ a'.σ = σ'
+  ∃ it, y = doc.add it ∧ (sItem it).2 = o ∧ it.enumOK ∧ KeyIn σ σ' (sItem it).1 ∧ a'.σ = σ'
 
 theorem cpl_typeSystemExtension (n : Nat) (doc : SchemaDoc) (ts o : List Tok) (hok : TsOK ts) (hd : D (.nt .typeSystemExtension) ts o)
     (a : AS) (σ' : Stream) (hs : Starts a.σ ts σ') (hfol : FolItem σ') :
@@ -1471,7 +1516,7 @@ theorem cpl_typeSystemExtension (n : Nat) (doc : SchemaDoc) (ts o : List Tok) (h
     rintro sd b3 ⟨hsd, hkey, hσ⟩
     refine (Fwd.pure _ _).mono ?_
     rintro y b4 ⟨rfl, rfl⟩
-    refine ⟨.schemaExt sd, rfl, hsd, ?_, hσ⟩
+    refine ⟨.schemaExt sd, rfl, hsd, trivial, ?_, hσ⟩
     simp only [sItem]
     exact KeyIn.prefix h1 (by simpa [hσ1] using hkey)
   · obtain ⟨k, tb, ob, rfl, rfl, hb, hne⟩ := inv_typeExtension hte hok
@@ -1490,10 +1535,10 @@ theorem cpl_typeSystemExtension (n : Nat) (doc : SchemaDoc) (ts o : List Tok) (h
           (ItemRes doc (tKw "extend" :: DefKind.keyword k :: ob) a.σ σ') := by
       intro p hp
       refine Fwd.bind hp ?_
-      rintro x b3 ⟨hdesc, hkind, hbody, hkey, hσ⟩
+      rintro x b3 ⟨hdesc, hkind, hbody, henum, hkey, hσ⟩
       refine (Fwd.pure _ _).mono ?_
       rintro y b4 ⟨rfl, rfl⟩
-      refine ⟨.extension x, rfl, ?_, ?_, hσ⟩
+      refine ⟨.extension x, rfl, ?_, henum, ?_, hσ⟩
       · simp [sItem, printExtension, hkind, hbody]
       · simp only [sItem]
         exact KeyIn.prefix h1 (by rw [← hσ1]; exact hkey)
